@@ -1,6 +1,7 @@
 (* C19 -- list-level wrappers around the kernels GENERATED from typhon/retrieval/scores.py
    (coq/gen/scores.v): mape / bias = mean of the kernel over the samples, mean_quantile_score for a
-   constant estimate = mean of the pinball kernel; the reshape contract of quantile_score. Definitions only. *)
+   constant estimate = mean of the pinball kernel; the reshape contract of quantile_score;
+   NaN-aware means (None = NaN) and the (n,k) score matrix on lists of rows. Definitions only. *)
 From Coq Require Import Reals List ZArith.
 From TyphonGen Require Import scores.
 Import ListNotations.
@@ -24,6 +25,52 @@ Definition cnt_le (q : R) (ys : list R) : R := rsum (map (fun y => if Rle_dec y 
 (* q is a tau-quantile of the sample *)
 Definition is_quantile (tau q : R) (ys : list R) : Prop := cnt_lt q ys <= tau * rlen ys <= cnt_le q ys.
 
+(* ---- floats that may be NaN: None = NaN (the reals are the NaN-free, finite values) ---- *)
+Fixpoint somes (l : list (option R)) : list R :=
+  match l with [] => [] | Some x :: t => x :: somes t | None :: t => somes t end.
+Fixpoint all_some (l : list (option R)) : option (list R) :=
+  match l with [] => Some []
+  | Some x :: t => match all_some t with Some v => Some (x :: v) | None => None end
+  | None :: _ => None end.
+(* np.nanmean: mean of the non-NaN entries; NaN (RuntimeWarning, no exception) when there is none *)
+Definition nanmean (l : list (option R)) : option R :=
+  match somes l with [] => None | v => Some (rmean v) end.
+(* np.mean: NaN as soon as one entry is NaN (or the list is empty) *)
+Definition npmean (l : list (option R)) : option R :=
+  match all_some l with Some (x :: v) => Some (rmean (x :: v)) | _ => None end.
+(* an arithmetic kernel on floats: NaN in, NaN out (np.where(NaN < y, a, b) takes b = (1 - tau) * |NaN| = NaN) *)
+Definition lift2 (f : R -> R -> R) (a b : option R) : option R :=
+  match a, b with Some x, Some y => Some (f x y) | _, _ => None end.
+Definition lift3 (f : R -> R -> R -> R) (a b c : option R) : option R :=
+  match a, b, c with Some x, Some y, Some z => Some (f x y z) | _, _, _ => None end.
+Definition quantile_score_fl : option R -> option R -> option R -> option R := lift3 quantile_score_kernel.
+(* mean_quantile_score = np.nanmean(quantile_score(...), axis=0) of the constant estimate c on a sample that may contain NaN *)
+Definition mqs_fl (tau c : option R) (ys : list (option R)) : option R :=
+  nanmean (map (fun y => quantile_score_fl c y tau) ys).
+(* mape = np.nanmean(kernel), bias = np.mean(kernel) on (prediction, truth) pairs that may contain NaN *)
+Definition mape_fl (s : list (option R * option R)) : option R := nanmean (map (fun '(p, t) => lift2 mape_kernel p t) s).
+Definition bias_fl (s : list (option R * option R)) : option R := npmean (map (fun '(p, t) => lift2 bias_kernel p t) s).
+Definition nan_free (s : list (R * R)) : list (option R * option R) := map (fun '(p, t) => (Some p, Some t)) s.
+
+(* ---- the (n,k) score matrix on lists of rows (vector of taus) ---- *)
+Fixpoint map2 {A B C} (f : A -> B -> C) (l : list A) (m : list B) : list C :=
+  match l, m with a :: l', b :: m' => f a b :: map2 f l' m' | _, _ => [] end.
+(* n rows of k entries *)
+Definition rect (n k : nat) (rows : list (list R)) : Prop := length rows = n /\ Forall (fun r => length r = k) rows.
+(* broadcasting of one row of k estimates against the k fractions and the single observation y of that row *)
+Definition score_row (taus : list R) (row : list R) (y : R) : list R :=
+  map2 (fun e tau => quantile_score_kernel e y tau) row taus.
+Definition quantile_score_rows (rows : list (list R)) (ys taus : list R) : list (list R) :=
+  map2 (score_row taus) rows ys.
+Definition col (j : nat) (M : list (list R)) : list R := map (fun r => nth j r 0) M.
+(* mean_quantile_score: mean along axis 0 (NaN-free data), one entry per fraction *)
+Definition mqs_rows (rows : list (list R)) (ys taus : list R) : list R :=
+  map (fun j => rmean (col j (quantile_score_rows rows ys taus))) (seq 0 (length taus)).
+(* y_tau.reshape(-1, m) of the flat (C-order) data *)
+Fixpoint chunks (fuel m : nat) (l : list R) : list (list R) :=
+  match fuel with O => [] | S f => match l with [] => [] | _ => firstn m l :: chunks f m (skipn m l) end end.
+Definition reshape_rows (m : nat) (l : list R) : list (list R) := chunks (length l) m l.
+
 (* shape contract of quantile_score: y_tau.reshape(-1, m); n = rows; y_test.reshape(n, 1).
    sizes are the total numbers of elements; Some n = accepted with n rows, None = ValueError *)
 Open Scope Z_scope.
@@ -31,3 +78,9 @@ Definition quantile_score_shape (size_tau size_test m : Z) : option Z :=
   if (m <=? 0) then None
   else if negb (size_tau mod m =? 0) then None
   else if size_test =? size_tau / m then Some (size_tau / m) else None.
+
+(* quantile_score on the flat data of y_tau and y_test (any consistent shapes): None = ValueError *)
+Definition quantile_score_flat (flat ys taus : list R) : option (list (list R)) :=
+  match quantile_score_shape (Z.of_nat (length flat)) (Z.of_nat (length ys)) (Z.of_nat (length taus)) with
+  | Some _ => Some (quantile_score_rows (reshape_rows (length taus) flat) ys taus)
+  | None => None end.
